@@ -147,7 +147,9 @@ def setup(ctx, mods):
             tss = float(np.sum((y - y.mean()) ** 2))
             scale2 = float(np.max(np.abs(y))) ** 2 * n
             numeric = abs_floor > 0 and tss > 1e-9 * scale2
-            atol = (abs_floor ** 2 * n / tss + 64 * EPS) if numeric else 0.0
+            # error of RSS/TSS: n*delta^2/TSS (what is left on exact fits) plus the cross term 2*delta*sqrt(n*RSS)/TSS
+            # <= 2*delta*sqrt(n/TSS), which dominates for poor fits on a large base level (delta = abs_floor)
+            atol = (abs_floor ** 2 * n / tss + 8 * abs_floor * math.sqrt(n / tss) + 64 * EPS) if numeric else 0.0
         if numeric:
             err = abs(result - model)
             tol = 1e-6 * abs(model) + atol + 1e-300
